@@ -94,3 +94,46 @@ func (c *Ctx) LockPairing(pkgs []string, exceptions map[string]string) {
 		c.Extra["lock_exceptions"] = exUsed
 	}
 }
+
+// CriticalSection (rule L3): fn takes the mutex whose receiver path matches mtxRe exactly once, before every
+// instruction selected by body, and does not release it (other than by defer) before the last of them: the test
+// and the update it guards are in ONE critical section (no check-then-act window).
+func (c *Ctx) CriticalSection(fn *ssa.Function, mtxRe, desc string, body SinkSel) {
+	if fn == nil {
+		return
+	}
+	key := fnName(fn) + "/" + desc + " in one critical section"
+	isLock := func(in ssa.Instruction) bool {
+		cl, ok := in.(*ssa.Call)
+		return ok && re(lockRe).MatchString(calleeNameNoPath(&cl.Call)) && len(cl.Call.Args) > 0 && re(mtxRe).MatchString(pathOf(cl.Call.Args[0]))
+	}
+	isUnlock := func(in ssa.Instruction) bool {
+		cl, ok := in.(*ssa.Call) // a deferred unlock runs at exit and is fine
+		return ok && re(`^\(\*sync\.(RW)?Mutex\)\.(Unlock|RUnlock)$`).MatchString(calleeNameNoPath(&cl.Call)) && len(cl.Call.Args) > 0 && re(mtxRe).MatchString(pathOf(cl.Call.Args[0]))
+	}
+	locks := findInstrs(fn, isLock)
+	bodies := findInstrs(fn, body)
+	if len(bodies) == 0 {
+		c.Unres("L3", key, "no instruction matching the protected test/update found")
+		return
+	}
+	if len(locks) != 1 {
+		c.Bad("L3", key, fn.Pos(), len(locks), fmt.Sprintf("expected exactly one acquisition of the mutex, found %d: with several acquisitions the emptiness test and the update it guards run in different critical sections, so two concurrent callers can both pass the test", len(locks)))
+		return
+	}
+	// every protected instruction is preceded by the lock
+	w := &Walker{P: c.P, Stop: isLock}
+	if hit, found := w.Reach(fn, fn.Blocks[0], 0, body); found {
+		c.Bad("L3", key, instrPos(hit.Instr), len(bodies), "protected instruction at "+c.P.Pos(instrPos(hit.Instr))+" is reachable without holding the mutex; path "+c.P.pathStr(hit.Path))
+		return
+	}
+	// no explicit unlock is followed by a protected instruction
+	for _, u := range findInstrs(fn, isUnlock) {
+		w := &Walker{P: c.P}
+		if hit, found := w.Reach(fn, u.Block(), instrIndex(u)+1, body); found {
+			c.Bad("L3", key, instrPos(hit.Instr), len(bodies), "the mutex is released at "+c.P.Pos(instrPos(u))+" before the protected instruction at "+c.P.Pos(instrPos(hit.Instr))+": test and update are not atomic")
+			return
+		}
+	}
+	c.OK("L3", key, instrPos(locks[0]), len(bodies)+1, fmt.Sprintf("%d protected instruction(s) under one acquisition", len(bodies)))
+}
